@@ -8,7 +8,7 @@ from .. import lean, proto, util
 
 REQUIRED = ['Petl.C02.' + n for n in (
     'construct_pulls_zero runLazy_outputs pulls_le_length minimal_prefix length_independent oneToOne_pulls '
-    'filter_pulls lookahead_pulls constructors_read_only_where_allowed').split()]
+    'filter_pulls lookahead_pulls constructors_read_only_where_allowed iterators_materialise_only_where_allowed').split()]
 
 HDR = ('a', 'b', 'c')
 WORDS = ['x-1', 'y-2', 'xy-3', 'z-4', 'xx-5']
@@ -318,6 +318,13 @@ def run(ctx):
         ctx.extra['ctor_read_sites'] = [list(x) for x in info['sites']]
     except Exception as e:   # noqa
         ctx.bridge('translator: constructor read sites extracted', False, repr(e))
+    from translators import streaming
+    try:
+        info2 = streaming.generate()
+        ctx.bridge('translator: wholesale-consumption sites of %d generator functions (%d sites)' % (info2['generators'], len(info2['sites'])), True)
+        ctx.extra['materialisation_sites'] = [list(x) for x in info2['sites']]
+    except Exception as e:   # noqa
+        ctx.bridge('translator: materialisation sites extracted', False, repr(e))
     ctx.prove(['PetlProofs.Props.C02'], REQUIRED)
     rng = ctx.rng
     ops = catalog(etl)
